@@ -30,6 +30,7 @@ type histProfile struct {
 	GovHandover     bool       // generate ACL / DAO-owner hand-overs with real pool addresses
 	Scripts         bool       // insert a focused per-validator action sequence (one validator, one action per block)
 	Batches         bool       // insert blocks in which several validators perform the same action together
+	ScriptGov       []string   // governance actions (raisemin lowermin lowermax raisemax) validator and batch scripts may contain, sent by the parameter's current owner
 	ScriptTemplates [][]string // when set: the validator script always uses one of these action sequences ("x!" = short time step before x, "burn1" = burn request of 100%)
 	HugeBalances    bool       // some accounts hold balances just below 2^63 (sums then cross the int64 range)
 	MinSigned       []string   // when set: choices for MinSignedPerWindow
@@ -402,12 +403,12 @@ func genHistory(t *rapid.T, pr *histProfile) *hProg {
 	p.Blocks = rapid.SliceOfN(rapid.Custom(genBlock(pr)), minB, maxB).Draw(t, "blocks")
 	if pr.Scripts && rapid.Bool().Draw(t, "script") {
 		at := rapid.IntRange(0, len(p.Blocks)).Draw(t, "scriptat")
-		script := genValidatorScript(t, &p.Gen, pr.ScriptTemplates)
+		script := genValidatorScript(t, &p.Gen, pr.ScriptTemplates, pr.ScriptGov)
 		p.Blocks = append(p.Blocks[:at], append(script, p.Blocks[at:]...)...)
 	}
 	if pr.Batches && rapid.IntRange(0, 2).Draw(t, "batch") == 0 {
 		at := rapid.IntRange(0, len(p.Blocks)).Draw(t, "batchat")
-		script := genBatchScript(t, &p.Gen)
+		script := genBatchScript(t, &p.Gen, pr.ScriptGov)
 		p.Blocks = append(p.Blocks[:at], append(script, p.Blocks[at:]...)...)
 	}
 	if pr.Anchor && len(p.Gen.Validators) > 0 && rapid.Bool().Draw(t, "anchor") {
@@ -437,11 +438,32 @@ func applyAnchor(p *hProg, a int) {
 	}
 }
 
+// scriptGovTx: a parameter change sent by the parameter's current owner, timed by a script: the minimum stake raised
+// above / lowered back to what validators hold, the validator cap lowered below / raised above the set's size
+func scriptGovTx(t *rapid.T, action string, entropy int64) hTx {
+	tx := hTx{Kind: "param", SignWith: -1, KeyInSig: true, Entropy: entropy, AsOwner: true}
+	switch action {
+	case "raisemin":
+		tx.Key, tx.Str = "pos/StakeMinimum", rapid.SampledFrom([]string{`"2000000"`, `"2000000"`, `"5000000"`, `"1000002"`}).Draw(t, "graisemin")
+	case "lowermin":
+		tx.Key, tx.Str = "pos/StakeMinimum", `"1000000"`
+	case "lowermax":
+		tx.Key, tx.Str = "pos/MaxValidators", rapid.SampledFrom([]string{`"1"`, `"2"`, `"2"`, `"3"`}).Draw(t, "glowermax")
+	case "raisemax":
+		tx.Key, tx.Str = "pos/MaxValidators", rapid.SampledFrom([]string{`"5"`, `"100000"`}).Draw(t, "graisemax")
+	}
+	return tx
+}
+
+func isScriptGov(a string) bool {
+	return a == "raisemin" || a == "lowermin" || a == "lowermax" || a == "raisemax"
+}
+
 // genBatchScript: blocks in which 2-6 validators perform the SAME action together (all begin unstaking,
 // all stake, all are burned, all miss / double-sign), in a generated order, followed by time steps around
 // the unstaking and jail durations: several validators then share one unstaking-queue entry, mature in
 // the same EndBlock, leave or enter the set in the same update. The chosen keys get funded accounts.
-func genBatchScript(t *rapid.T, g *hGenesis) []hBlock {
+func genBatchScript(t *rapid.T, g *hGenesis, gov []string) []hBlock {
 	n := rapid.IntRange(2, 6).Draw(t, "bn")
 	keys := rapid.Permutation([]int{0, 1, 2, 3, 4, 5, 6, 7}).Draw(t, "bkeys")[:n]
 	if len(g.Validators) >= 2 && rapid.IntRange(0, 3).Draw(t, "bgenesis") != 0 {
@@ -478,6 +500,11 @@ func genBatchScript(t *rapid.T, g *hGenesis) []hBlock {
 		{"missed", "missed", "missed", "unjail", "wait"},
 		{"stake", "wait", "burn", "unstake", "wait", "wait"},
 	}).Draw(t, "btmpl")
+	if len(gov) > 0 && rapid.IntRange(0, 2).Draw(t, "bgov") == 0 {
+		// a parameter change lands between (or next to) the group's actions
+		at := rapid.IntRange(0, len(actions)).Draw(t, "bgovat")
+		actions = append(append(append([]string{}, actions[:at]...), rapid.SampledFrom(gov).Draw(t, "bgovaction")), actions[at:]...)
+	}
 	var out []hBlock
 	for i, a := range actions {
 		b := hBlock{DTSec: rapid.SampledFrom(steps).Draw(t, "bdt"), Proposer: rapid.IntRange(0, 3).Draw(t, "bprop")}
@@ -496,6 +523,8 @@ func genBatchScript(t *rapid.T, g *hGenesis) []hBlock {
 			}
 		case "missed":
 			b.MissedKeys = append([]int{}, order...)
+		case "raisemin", "lowermin", "lowermax", "raisemax":
+			b.Txs = append(b.Txs, scriptGovTx(t, a, 9900+int64(i)))
 		default:
 			for j, k := range order {
 				tx := hTx{Kind: a, From: k, To: k, SignWith: -1, KeyInSig: true, Entropy: 9000 + int64(i*10+j)}
@@ -518,7 +547,7 @@ func genBatchScript(t *rapid.T, g *hGenesis) []hBlock {
 // action (stake / begin-unstake / unjail / burn request / double-sign evidence against every known
 // validator / nothing) and a time step related to the unstaking and jail durations, so that
 // interleavings such as unstake -> convicted -> re-stake -> unstake -> first maturity time are reached.
-func genValidatorScript(t *rapid.T, g *hGenesis, templates [][]string) []hBlock {
+func genValidatorScript(t *rapid.T, g *hGenesis, templates [][]string, gov []string) []hBlock {
 	key := rapid.IntRange(0, 7).Draw(t, "skey")
 	if len(g.Validators) > 0 && rapid.IntRange(0, 3).Draw(t, "sgenesisval") != 0 {
 		key = g.Validators[rapid.IntRange(0, len(g.Validators)-1).Draw(t, "sval")].Key
@@ -573,7 +602,13 @@ func genValidatorScript(t *rapid.T, g *hGenesis, templates [][]string) []hBlock 
 			{"burn", "unstake", "stake", "wait"},
 		}).Draw(t, "tmpl")
 	} else {
-		actions = rapid.SliceOfN(rapid.SampledFrom([]string{"stake", "stake", "stake", "unstake", "unstake", "unstake", "evidence", "evidence", "wait", "wait", "burn", "unjail", "unjail", "downtime"}), 3, 8).Draw(t, "sactions")
+		vocab := []string{"stake", "stake", "stake", "unstake", "unstake", "unstake", "evidence", "evidence", "wait", "wait", "burn", "unjail", "unjail", "downtime"}
+		vocab = append(vocab, gov...)
+		actions = rapid.SliceOfN(rapid.SampledFrom(vocab), 3, 8).Draw(t, "sactions")
+	}
+	if len(gov) > 0 && len(templates) == 0 && rapid.IntRange(0, 3).Draw(t, "sgov") == 0 {
+		at := rapid.IntRange(0, len(actions)).Draw(t, "sgovat")
+		actions = append(append(append([]string{}, actions[:at]...), rapid.SampledFrom(gov).Draw(t, "sgovaction")), actions[at:]...)
 	}
 	var out []hBlock
 	for i, a := range actions {
@@ -597,7 +632,11 @@ func genValidatorScript(t *rapid.T, g *hGenesis, templates [][]string) []hBlock 
 			}
 			b.DTSec = rapid.SampledFrom([]int64{0, 1, 5}).Draw(t, "sddt")
 		default:
-			b.Txs = []hTx{mkTx(a, int64(i))}
+			if isScriptGov(a) {
+				b.Txs = []hTx{scriptGovTx(t, a, 7900+int64(i))}
+			} else {
+				b.Txs = []hTx{mkTx(a, int64(i))}
+			}
 		}
 		out = append(out, b)
 	}
